@@ -37,7 +37,11 @@ def annotate(prog, assignment):
 def run(ck):
   n = ck.budget(18, 500)
   made = semcheck.make_programs(ck, n, G.Gen.ALL)
-  made += semcheck.make_programs(ck, ck.budget(32, 400), None, {}, builder=templates.build)
+  made += semcheck.make_programs(ck, ck.budget(28, 400), None, {}, builder=templates.build)
+  # the shapes on which plans differ most easily, several instances of each
+  made += semcheck.make_programs(ck, ck.budget(15, 150), None,
+                                 {'templates': ['t_injectible_self_application', 't_pure_distinct', 't_sibling_combines']},
+                                 builder=templates.build)
   jobs, meta = [], []
   for pr, model in made:
     derived = [p.name for p in pr.preds if p.kind != 'facts']
